@@ -75,6 +75,8 @@ def parse_specdec(ans):
     left = int(t.next().split("=")[1])
     chunks = []
     for p in parts[1:]:
+        if not p.strip():
+            continue
         a, b = p.split(" | ")
         m = parse_meta(Toks(a))
         tb = Toks(b)
